@@ -68,7 +68,8 @@ def signature(scn, variant):
         "ok" if scn["out"]["ok"] else scn["out"]["err"])
 
 
-VARIANTS = [("i", "i", False, 0), ("f", "f", False, 0), ("s", "s", False, 0), ("i", "f", True, 0), ("f", "i", True, 0), ("i", "i", False, -4), ("f", "f", False, -2)]
+VARIANTS = [("i", "i", False, 0), ("f", "f", False, 0), ("s", "s", False, 0), ("i", "f", True, 0), ("f", "i", True, 0), ("i", "i", False, -4), ("f", "f", False, -2),
+            ("f", "f", False, 2000000), ("u", "u", False, 0)]      # float labels around 1e6 spaced by 0.5; unsigned integer labels
 
 
 def replay(scn):
